@@ -24,6 +24,8 @@ class Context:
     def plain(self):
         if "plain" not in self._mods:
             self._mods["plain"] = Module(self.views.plain_json())
+            from . import build
+            build.CURRENT_DEFINED = {f.cname for f in self._mods["plain"].defined()}
         return self._mods["plain"]
 
     def inlined(self, name):
